@@ -466,7 +466,7 @@ fn kernel_sweep(ctx: &Ctx) {
         samples: 0,
     };
     let terms_all: [u8; 6] = [b' ', b'\n', b'/', b':', 0x00, 0xb5];
-    let full_len: u32 = ctx.tier.pick(6, 8);
+    let full_len: u32 = ctx.tier.pick(7, 8);
     let mut index = 0u64;
     let mut rec = Vec::with_capacity(16);
     // all digit strings of length 0..=full_len
@@ -504,6 +504,9 @@ fn kernel_sweep(ctx: &Ctx) {
     // quick tier: strided 7- and 8-digit strings
     if full_len < 8 {
         for (len, total, stride) in [(7u32, 10_000_000u64, 97u64), (8, 100_000_000, 997)] {
+            if len <= full_len {
+                continue;
+            }
             let mut n = (ctx.shard as u64 * 6) % stride;
             while n < total {
                 for &t in &terms_all[..2] {
@@ -545,7 +548,7 @@ fn kernel_sweep(ctx: &Ctx) {
 
 fn run(ctx: &Ctx) {
     kernel_sweep(ctx);
-    let n = ctx.share(ctx.tier.pick(400_000, 8_000_000));
+    let n = ctx.share(ctx.tier.pick(3_000_000, 30_000_000));
     ctx.run_cases("scan", n, case_strategy(), check);
 }
 
